@@ -445,15 +445,22 @@ def gen_program_start_under_load(rng):
         n[0] += 1
         k = kind or rng.choice(["sleep", "sleep", "ret", "exc"])
         return ["enq", "%s%d" % (owner, n[0]), k] + ([rng.choice([15, 30, 45])] if k == "sleep" else [])
-    if rng.random() < 0.5:
+    if rng.random() < 0.4:
+        # nothing is queued before the pool starts (tasks queued before start() are counted twice by the pool's
+        # pending counter, an upward drift that hides a lost increment): the producers meet running workers only
         ops.append(["start"])
-        ops.append(task("c", "ret"))
-        ops.append(["stop"])
-    for _ in range(rng.randint(1, 3)):
-        ops.append(task("c", "ret"))
-    ops.append(["go", 0])
-    ops.append(["go", 1])
-    ops.append(["start"])
+        ops.append(["go", 0])
+        ops.append(["go", 1])
+    else:
+        if rng.random() < 0.5:
+            ops.append(["start"])
+            ops.append(task("c", "ret"))
+            ops.append(["stop"])
+        for _ in range(rng.randint(1, 3)):
+            ops.append(task("c", "ret"))
+        ops.append(["go", 0])
+        ops.append(["go", 1])
+        ops.append(["start"])
     ops.append(["sleep", rng.choice([150, 250])])
     last = task("c", "ret")
     ops.append(last)
@@ -462,6 +469,9 @@ def gen_program_start_under_load(rng):
         eops = [["sleep", rng.choice([1, 3])]]
         for _ in range(rng.randint(3, 7)):
             eops.append(task("e%d_" % i))
+            if rng.random() < 0.7:
+                # producers stay active while the workers complete tasks (their counter updates overlap)
+                eops.append(["sleep", rng.choice([2, 5, 10, 20])])
         prog["enqueuers"].append(eops)
     return prog
 
